@@ -2,6 +2,6 @@
 core = statements/expressions/ints/bools/assoc-list dicts; strings = code-point-list strings;
 contracts = regex matcher, int()/float() contracts, super(), typed int construction."""
 from .core import *          # noqa
-from . import strings, contracts   # noqa  (patch the engine)
+from . import strings, contracts, dtmodel   # noqa  (patch the engine)
 from .strings import SymStr, lift, lower
 from .contracts import SymReal
